@@ -109,6 +109,24 @@ Theorem C01_tmcg_open : forall (k w : nat) (km ky : nat -> Z) (nqr : nat -> Z ->
 Proof. exact tmcg_open_ok. Qed.
 Print Assumptions C01_tmcg_open.
 
+(* ... restated for arbitrary announced integers: TMCG_VerifyCardSecret stores the received number unchecked and selects the
+   proof by its PARITY, TMCG_TypeOfCard toggles by parity; any matrix B of announced values whose parities are the verified
+   residuosities opens to T (0/1, 2, -3, 2^64 ... alike) *)
+Theorem C01_tmcg_open_any_announced_bits : forall (k w : nat) (km ky : nat -> Z) (nqr : nat -> Z -> bool)
+    (J U : nat -> Z -> Prop),
+  (forall i, J i 1) -> (forall i, J i (ky i)) ->
+  (forall i z r, J i z -> U i r -> J i ((((r * r) mod km i) * z) mod km i)) ->
+  (forall i z, J i z -> J i ((z * ky i) mod km i)) ->
+  (forall i, nqr i 1 = false) -> (forall i, nqr i (ky i) = true) ->
+  (forall i z r, J i z -> U i r -> nqr i ((((r * r) mod km i) * z) mod km i) = nqr i z) ->
+  (forall i z, J i z -> nqr i ((z * ky i) mod km i) = negb (nqr i z)) ->
+  (0 < k)%nat ->
+  forall T chain B, 0 <= T < 2 ^ Z.of_nat w -> Forall (good_secret k w U) chain ->
+  (forall i j, (i < k)%nat -> (j < w)%nat -> Z.odd (B i j) = nqr i (mask_chain km ky (open_card_qr ky T) chain i j)) ->
+  type_of_card k w B = T.
+Proof. exact tmcg_open_any_bits. Qed.
+Print Assumptions C01_tmcg_open_any_announced_bits.
+
 (* the secrets TMCG_CreateCardSecret produces (row `index` = XOR of the others) are admissible *)
 Theorem C01_tmcg_created_secret_admissible : forall (k w : nat) (U : nat -> Z -> Prop) index r b,
   (index < k)%nat -> (forall i j, (i < k)%nat -> (j < w)%nat -> U i (r i j)) ->
